@@ -37,7 +37,7 @@ Definition enc_err (e : exn) : toks := [1; exn_code e].
 
 (* a cheap digest of a token list (the harness computes the same) *)
 Definition digest (t : toks) : Z :=
-  fold_left (fun h x => (h * 1000003 + x + 7) mod 2147483647) t 17.
+  fold_left (fun h x => Z.land (h * 31 + x + 7) 1073741823) t 17.
 
 Definition enc_tree (full : bool) (j : json) : toks :=
   let t := enc_value (json_to_value j) in
